@@ -9,8 +9,10 @@ PROPERTY = "C09"
 LEVEL = "exploration"
 SCENARIOS = {"vars": 1, "dict": 1}
 TIERS = {"quick": {"runs": 8000, "chunk": 25}, "thorough": {"runs": 50000000, "wall_s": 600, "chunk": 150, "recheck": 16}}
-RULE = ("'vars': 1-6 hash-map variables with drawn formats and defaults, a generated program "
-        "with statements a = b / a = b + k, and a history of Python set/get and program runs; "
+RULE = ("'vars': 1-6 hash-map variables with drawn formats (12% with a byte-order prefix) "
+        "and defaults, a generated program that keeps live values in up to 2 of r2-r9 and "
+        "has statements a = b / a = b + k / a = register (+ k) / a = temporary (+ k), and a "
+        "history of Python set/get and program runs; "
         "'dict': tape-generated packed Key/Value structures (members of all sizes), a "
         "generated program that fills the key from array-map variables and then updates, or "
         "looks up + modifies a member + marks the Else branch, and a history of inserts, "
@@ -26,9 +28,14 @@ COMPONENTS = {
 ASSUMPTIONS = ["values are drawn inside the declared format's range (what happens to "
                "out-of-range values is not stated)", "fixed-point (x) hash variables are "
                "their own class: usable by the program, not readable/writable from Python",
-               "iterating an empty Dict from Python is tolerated, not judged"]
+               "iterating an empty Dict from Python is tolerated, not judged",
+               "a program the DSL refuses with AssembleError 'not enough registers' is a "
+               "stated limit, counted (c09/register-pressure-refused) and not judged",
+               "a constant cannot be assigned to a hash variable inside a program (the "
+               "library has no such path), so it is not generated"]
 
 FMTS = ["B", "H", "I", "Q", "b", "h", "i", "q"]
+PREFIXES = ["<", "=", "@", ">", "!"]
 
 
 def draw_in_range(tape, fmt, label):
@@ -42,7 +49,7 @@ def draw_in_range(tape, fmt, label):
     return v
 
 
-def run_vars(tape, env, viol, history):
+def run_vars(tape, env, viol, history, want_c10=False):
     from ebpfcat.hashmap import HashMap
     from ebpfcat.xdp import XDP, XDPExitCode
     kernel = env.kernel
@@ -51,21 +58,50 @@ def run_vars(tape, env, viol, history):
     decl = []
     for i in range(1 + tape.draw("c09/nvars", 6)):
         fmt = tape.pick("c09/fmt", FMTS)
+        if tape.chance("c09/prefixed", 12 if not want_c10 else 35):
+            fmt = tape.pick("c09/prefix", PREFIXES) + fmt
         default = draw_in_range(tape, fmt, "c09/default") if tape.chance("c09/has-default", 60) else 0
         ns[f"h{i}"] = hm.globalVar(fmt, default)
         decl.append((f"h{i}", fmt, default))
+    # registers holding live values while hash variables are accessed
+    regs = []
+    for no in sorted({tape.pick("c09/regno", [2, 3, 4, 5, 6, 7, 8, 9])
+                      for _ in range(tape.draw("c09/nregs", 3))}):
+        f = tape.pick("c09/regfmt", FMTS)
+        regs.append((no, f, draw_in_range(tape, f, "c09/regval") & ((1 << 63) - 1)
+                     if f == "Q" else draw_in_range(tape, f, "c09/regval")))
     stmts = []
-    for _ in range(tape.draw("c09/nstmts", 4)):
+    for _ in range(tape.draw("c09/nstmts", 5)):
         dst = tape.pick("c09/dst", decl)
-        same = [d for d in decl if d[1] == dst[1]]     # mixed formats are C01's subject
-        src = tape.pick("c09/src", same)
+        kind = tape.draw("c09/stmt-kind", 4)
         k = tape.draw("c09/k", 50) if tape.chance("c09/plus", 50) else None
-        stmts.append((dst, src, k))
+        if kind == 2 and regs:
+            stmts.append(("reg", dst, tape.pick("c09/usereg", regs), k))
+        elif kind == 3:
+            v = draw_in_range(tape, dst[1], "c09/tmpval")
+            if dst[1][-1] == "Q":
+                v &= (1 << 63) - 1
+            stmts.append(("tmp", dst, v, k))
+        else:
+            same = [d for d in decl if d[1] == dst[1]]     # mixed formats are C01's subject
+            stmts.append(("var", dst, tape.pick("c09/src", same), k))
 
     def program(self):
-        for dst, src, k in stmts:
-            v = getattr(self, src[0])
-            setattr(self, dst[0], v if k is None else v + k)
+        for no, f, v in regs:
+            (self.sr if f.islower() else self.r)[no] = v
+        for kind, dst, src, k in stmts:
+            if kind == "var":
+                v = getattr(self, src[0])
+                setattr(self, dst[0], v if k is None else v + k)
+            elif kind == "reg":
+                r = (self.sr if src[1].islower() else self.r)[src[0]]
+                setattr(self, dst[0], r if k is None else r + k)
+            else:
+                t = "stmp" if dst[1].islower() else "tmp"
+                with getattr(self, t):
+                    setattr(self, t, src)
+                    tv = getattr(self, t)
+                    setattr(self, dst[0], tv if k is None else tv + k)
         self.exit(XDPExitCode.PASS)
     ns["program"] = program
     P = type("P", (XDP,), ns)
@@ -73,6 +109,11 @@ def run_vars(tape, env, viol, history):
         p = P()
         p.load()
     except Exception as e:
+        if type(e).__name__ == "AssembleError" and "not enough registers" in str(e) and regs:
+            # the DSL states that it ran out of registers for this program: a stated
+            # limit, not a wrong value
+            env.world.count("c09/register-pressure-refused")
+            return decl
         viol("program-cannot-be-generated", f"{type(e).__name__}: {e}; {decl} {stmts}",
              exception=type(e).__name__, part="vars")
         return decl
@@ -95,7 +136,7 @@ def run_vars(tape, env, viol, history):
             lo, hi = (-(1 << (bits - 1)), (1 << (bits - 1)) - 1) if f.islower() else (0, (1 << bits) - 1)
             if lo <= want <= hi and got != want:
                 viol("hash-variable-differs", f"{when}: {n} ({f}) reads {got!r} from Python, "
-                     f"model {want!r}", fmt=f)
+                     f"model {want!r}", fmt=f, byteorder=f[0] if len(f) > 1 else "")
                 return
     check("after load (defaults)")
     for step in range(3 + tape.draw("c09/nops", 20)):
@@ -116,10 +157,11 @@ def run_vars(tape, env, viol, history):
             except Exception as e:
                 viol("interpreter-fault", f"{type(e).__name__}: {e}", part="vars")
                 return decl
-            for dst, src, k in stmts:
+            for kind, dst, src, k in stmts:
                 # 64-bit cells; a sum that leaves the declared format's range is not
                 # judged any more (check() skips out-of-range cells)
-                model[dst[0]] = model[src[0]] if k is None else model[src[0]] + k
+                v = model[src[0]] if kind == "var" else src[2] if kind == "reg" else src
+                model[dst[0]] = v if k is None else v + k
             history.append(("run",))
         else:
             history.append(("py_get",))
@@ -341,7 +383,8 @@ def run(tape, scenario, want_c10=False):
     viol.any = lambda: bool(violations)
     history = []
     with env:
-        desc = (run_vars if scenario == "vars" else run_dict)(tape, env, viol, history)
+        desc = (run_vars(tape, env, viol, history, want_c10) if scenario == "vars"
+                else run_dict(tape, env, viol, history))
         overruns = [{"rule": "buffer-overrun", "params": {"role": bv["role"], "cmd": bv["cmd"],
                                                           "map": bv["map"].split()[0].strip("<")},
                      "detail": f"{bv}"} for bv in monitor.violations[:1]]
